@@ -1,0 +1,49 @@
+//go:build verif
+
+// Contracts for the tvc verifier (/verif). Comment-only: with the `verif` tag off this file does not exist,
+// with it on it adds no code. Syntax: /verif/DESIGN.md appendix A.
+
+package vswitch
+
+//@ for C17
+
+//@ # cache snapshot: the vSwitch a lookup of id yields during this call
+//@ pure func swOf(id string) *Switch
+//@ # what the caller's options amount to
+//@ pure func ignoreZoneOpt(opts []SelectOption) bool
+//@ pure func policyOpt(opts []SelectOption) SelectionPolicy
+
+//@ invariant elem *Switch: value != nil
+
+//@ # assumed: a successful lookup returns the (non-nil) cached or freshly described vSwitch of that id
+//@ func SwitchPool.GetByID
+//@   trusted
+//@   modifies nothing
+//@   ensures result1 == nil ==> result0 != nil && result0 == swOf(id) && result0.ID == id
+//@   ensures result1 != nil ==> result0 == nil
+
+//@ # assumed: applying the options yields the option values (each SelectOption.Apply is an interface call)
+//@ func SelectOptions.ApplyOptions
+//@   trusted
+//@   modifies SelectOptions.IgnoreZone, SelectOptions.VSwitchSelectPolicy
+//@   ensures o.IgnoreZone == ignoreZoneOpt(opts) && o.VSwitchSelectPolicy == policyOpt(opts) && result == o
+
+//@ func SwitchPool.GetOne
+//@   requires s != nil
+//@   panics
+//@   # the chosen vSwitch has free addresses and lies in the requested zone unless zone fallback was asked for
+//@   ensures result1 == nil ==> result0 != nil && result0.AvailableIPCount != 0
+//@   ensures result1 == nil ==> result0.Zone == zone || ignoreZoneOpt(opts)
+//@   ensures result1 != nil ==> result0 == nil
+//@   # selection never reorders or corrupts the caller's candidate list, whatever the policy
+//@   ensures forall i int :: 0 <= i && i < len(ids) ==> ids[i] == old(ids[i])
+//@   # no vSwitch object is modified by a selection
+//@   preserves Switch.*
+//@   loop 2 invariant fresh(arr(newOrder)) && (forall i int :: 0 <= i && i < len(entry(ids)) ==> entry(ids)[i] == old(entry(ids)[i]))
+//@   loop 3 invariant len(fallBackSwitches) > 0 ==> selectOptions.IgnoreZone
+
+//@ # Block replaces the cached entry by a zeroed COPY: no Switch object that existed before (for instance one already
+//@ # handed to a caller by GetOne) is written
+//@ func SwitchPool.Block
+//@   requires s != nil
+//@   preserves Switch.*
